@@ -191,8 +191,18 @@ def _sum_check(F, b):
                 if f and loops and all(b.edge_dominates(sb, f[0], x) for x in loops) and _leads_only_to_err(F, b, st["otherwise"]):
                     ok_guard = True
     # contents = zlib_header.to_vec() ; extend(deflate_stream) ; extend(adler32 bytes)
-    ext = [flow.describe(b, t["args"][1], names=True) for bb, t in b.calls() if strip_generics(callee_def(t)).endswith("Extend::extend")]
-    ok_build = len(ext) == 2 and ext[0] == "var(deflate_stream)" and "to_be_bytes" in ext[1]
+    # (in whatever way the three pieces are appended: to_vec + extend, with_capacity + extend_from_slice ...)
+    parts = []
+    for bb, t in b.calls():
+        n = strip_generics(callee_def(t))
+        if re.search(r"(\[T\]>::to_vec|::to_vec)$", n) and t["args"]:
+            parts.append((bb, flow.describe(b, t["args"][0], names=True)))
+        elif re.search(r"(Extend::extend|Vec::extend_from_slice|Vec::extend)$", n) and len(t["args"]) == 2 and "contents" in flow.describe(b, t["args"][0], names=True):
+            parts.append((bb, flow.describe(b, t["args"][1], names=True)))
+    import functools
+    parts.sort(key=functools.cmp_to_key(lambda x, y: -1 if b.dominates(x[0], y[0]) and x[0] != y[0] else (1 if b.dominates(y[0], x[0]) and x[0] != y[0] else 0)))
+    ext = [d for _, d in parts]
+    ok_build = len(ext) == 3 and "zlib_header" in ext[0] and "deflate_stream" in ext[1] and "to_be_bytes" in ext[2] and "addler32" in ext[2]
     idx = [flow.describe_rvalue(b, d[3], names=True) for l in b.locals_named("index") for d in b.defs(l) if d[2] == "assign"]
     ok_idx = sorted(idx) == sorted(["K0", "Add(var(index), var(chunk_size))"]) or sorted(idx) == sorted(["K0", "Add(var(index), var(chunk_size)).0"])
     return (ok_guard and ok_build and ok_idx), "sum check dominates the loop and fails into Err: %s; contents = header ++ stream ++ adler32: %s (%s); index advances by chunk_size: %s" % (ok_guard, ok_build, ext, idx)
